@@ -50,8 +50,14 @@ def run_patch(pid, mod, patch, repo=None, keep=False):
         mod.check(ctx)
         expects = [e.strip() for e in meta['expect'].split(',') if e.strip()]
         viol = [o for o in ctx.obs if not o.ok]
-        hit = [o for o in viol if any(o.rule == e or o.rule.startswith(e) for e in expects)]
         shutil.rmtree(facts_dir, ignore_errors=True)
+        if expects == ['none']:
+            # a behaviour-preserving variant (accepted idiom): the rules must stay silent apart from listed known findings
+            known = {k['key'] for k in engine.load_known() if k['status'] == 'known'}
+            extra = [o for o in viol if o.full_key not in known]
+            return {'name': name, 'status': 'quiet' if not extra else 'false-alarm', 'what': meta['what'],
+                    'expect': 'none', 'reported': sorted({o.full_key for o in extra})[:12]}
+        hit = [o for o in viol if any(o.rule == e or o.rule.startswith(e) for e in expects)]
         return {'name': name, 'status': 'killed' if hit else 'missed', 'what': meta['what'],
                 'expect': meta['expect'], 'reported': sorted({o.full_key for o in viol})[:12]}
     finally:
@@ -69,4 +75,6 @@ def run_for(pid, mod):
     return {'results': res,
             'killed': len([r for r in res if r['status'] == 'killed']),
             'missed': len([r for r in res if r['status'] == 'missed']),
-            'not_applicable': len([r for r in res if r['status'] not in ('killed', 'missed')])}
+            'quiet_on_conforming_variants': len([r for r in res if r['status'] == 'quiet']),
+            'false_alarms': len([r for r in res if r['status'] == 'false-alarm']),
+            'not_applicable': len([r for r in res if r['status'] not in ('killed', 'missed', 'quiet', 'false-alarm')])}
